@@ -103,3 +103,79 @@ Example legacy_out_of_step :
   history true st0 [[(1, false); (2, false)]; [(1, true); (2, false)]; [(3, false); (2, false)]]
   = [[Decoded true; Decoded true]; [Refused; Unread]; [Decoded true; Refused]].
 Proof. split; vm_compute; reflexivity. Qed.
+
+(* ---- the error a marked sub-stream answers with (C14: a refusal caused by the memory limit stays recognisable) ----
+   Consumer.Consume stores, on every sub-stream of the abandoned rest of a batch, the error that made it abandon the batch;
+   a later payload of such a sub-stream is refused with the stored error.  [Some r]: the stored / library error, r = it is
+   recognisable as the memory-limit error (errors.Is(err, ErrConsumerMemoryLimit)).  [keep_chain = false] is the seeded
+   variant: the sub-streams behind the failing payload get a re-formatted error that no longer wraps the original. *)
+Definition marks := N -> option bool.
+Definition no_marks : marks := fun _ => None.
+Definition set_mark (m : marks) (k : N) (r : bool) : marks := fun j => if N.eqb j k then Some r else m j.
+
+Inductive mout := MDecoded | MRefused (recognisable : bool) | MUnread.
+
+(* abandon: the failing payload's sub-stream keeps the original error, those behind it get it too (or its re-formatted copy) *)
+Fixpoint mark_rest (keep_chain : bool) (m : marks) (r : bool) (ps : list (N * option bool)) : marks :=
+  match ps with [] => m | p :: tl => mark_rest keep_chain (set_mark m (fst p) (keep_chain && r)) r tl end.
+
+Fixpoint mbatch (keep_chain : bool) (m : marks) (ps : list (N * option bool)) : marks * list mout :=
+  match ps with
+  | [] => (m, [])
+  | (sid, fails) :: tl =>
+      match (match m sid with Some r => Some r | None => fails end) with
+      | Some r => (mark_rest keep_chain (set_mark m sid r) r tl, MRefused r :: map (fun _ => MUnread) tl)
+      | None => let '(m1, os) := mbatch keep_chain m tl in (m1, MDecoded :: os)
+      end
+  end.
+
+Fixpoint mhistory (keep_chain : bool) (m : marks) (h : list (list (N * option bool))) : list (list mout) :=
+  match h with [] => [] | ps :: tl => let '(m1, os) := mbatch keep_chain m ps in os :: mhistory keep_chain m1 tl end.
+
+Definition only_limit (m : marks) : Prop := forall k r, m k = Some r -> r = true.
+Definition limit_failures (ps : list (N * option bool)) : Prop := Forall (fun p => snd p = None \/ snd p = Some true) ps.
+Definition recognisable (o : mout) : Prop := match o with MRefused r => r = true | _ => True end.
+
+Lemma set_mark_only m k : only_limit m -> only_limit (set_mark m k true).
+Proof. intros H j r. unfold set_mark. destruct (N.eqb j k); [intros E; injection E as <-; reflexivity|apply H]. Qed.
+
+Lemma mark_rest_only : forall ps m, only_limit m -> only_limit (mark_rest true m true ps).
+Proof. induction ps as [|p tl IH]; intros m H; cbn [mark_rest andb]; [exact H|]. apply IH, set_mark_only, H. Qed.
+
+Lemma mbatch_only : forall ps m m1 os,
+  only_limit m -> limit_failures ps -> mbatch true m ps = (m1, os) -> only_limit m1 /\ Forall recognisable os.
+Proof.
+  induction ps as [|[sid fails] tl IH]; intros m m1 os Hm Hf H; cbn [mbatch] in H.
+  - injection H as <- <-. split; [exact Hm|constructor].
+  - inversion Hf as [|p tl' Hp Htl]; subst p tl'. cbn [snd] in Hp.
+    destruct (match m sid with Some r => Some r | None => fails end) as [r|] eqn:E.
+    + assert (Hr : r = true).
+      { destruct (m sid) as [r0|] eqn:Em; [injection E as <-; exact (Hm sid r0 Em)|].
+        destruct Hp as [Hp|Hp]; rewrite Hp in E; [discriminate|injection E as <-; reflexivity]. }
+      subst r. injection H as <- <-. split; [apply mark_rest_only, set_mark_only, Hm|].
+      constructor; [reflexivity|]. apply Forall_forall. intros o Ho. apply in_map_iff in Ho. destruct Ho as (_ & <- & _). exact I.
+    + destruct (mbatch true m tl) as [ma osa] eqn:E2. injection H as <- <-.
+      destruct (IH m ma osa Hm Htl E2) as [H1 H2]. split; [exact H1|constructor; [exact I|exact H2]].
+Qed.
+
+(* every history in which the library only ever fails for the memory limit: every refusal, at any later point of the stream,
+   is recognisable as the memory-limit error *)
+Theorem refusals_stay_recognisable : forall h m,
+  only_limit m -> Forall limit_failures h -> Forall (Forall recognisable) (mhistory true m h).
+Proof.
+  induction h as [|ps tl IH]; intros m Hm Hh; cbn [mhistory]; [constructor|].
+  inversion Hh as [|x y Hps Htl]; subst x y.
+  destruct (mbatch true m ps) as [m1 os] eqn:E. destruct (mbatch_only ps m m1 os Hm Hps E) as [H1 H2].
+  constructor; [exact H2|apply IH; assumption].
+Qed.
+
+Lemma no_marks_only : only_limit no_marks.
+Proof. intros k r H. discriminate. Qed.
+
+(* the seeded variant: batch 2 is refused for the limit at its first payload (sub-stream 1); batch 3 restarts that payload
+   type under a new schema id (3) and is then refused on sub-stream 2 with an error nobody can recognise *)
+Example reformatted_mark_refuted :
+  let h := [[(1, None); (2, None)]; [(1, Some true); (2, None)]; [(3, None); (2, None)]] in
+  mhistory false no_marks h = [[MDecoded; MDecoded]; [MRefused true; MUnread]; [MDecoded; MRefused false]] /\
+  mhistory true no_marks h = [[MDecoded; MDecoded]; [MRefused true; MUnread]; [MDecoded; MRefused true]].
+Proof. split; vm_compute; reflexivity. Qed.
